@@ -240,7 +240,7 @@ def write_script(ctx, k=3, maxlen=2, with_length=True):
 
 # ---- payload kinds: declared size vs bytes written --------------------------------------
 PAYLOAD_ALPHABET = ["a", "\n", "\u00e9", "\u20ac"]  # 1 byte; LF; 2 bytes in UTF-8 / 1 in Latin-1; 3 bytes in UTF-8
-PAYLOAD_KINDS = ("bytes", "string", "bytesio", "file", "textfile", "stringio", "asynciter", "json")
+PAYLOAD_KINDS = ("bytes", "string", "bytesio", "file", "textfile", "stringio", "asynciter", "json", "multipart")
 
 
 class _RecWriter:
@@ -330,6 +330,15 @@ def payload_size(ctx, kind="bytes", maxchars=3):
 
             pl = P.AsyncIterablePayload(gen())
             data = raw
+        elif kind == "multipart":
+            # a multipart body declares its own length: header blocks (here with the chosen, possibly
+            # non-ASCII, text in a part header and as the part content) count in bytes
+            from aiohttp import multipart as MP
+
+            pl = MP.MultipartWriter("mixed", boundary="b")
+            pl.append_payload(P.BytesPayload(text.encode(), headers={"X-Name": "n-" + text.replace("\n", " ")}))
+            pl.append_payload(P.StringPayload(text))
+            data = None
         else:  # json
             pl = P.JsonPayload({"k": text})
             import json as _json
@@ -347,6 +356,12 @@ def payload_size(ctx, kind="bytes", maxchars=3):
 
         loop.run_until_complete(go())
         out = b"".join(w.chunks)
+        if data is None:
+            # (no independent rendering of the multipart wire here - that is C19; the claim is the size)
+            if size is not None and cl is None and size != len(out):
+                return False, "inv:payload-size", {"key": "payload-declared-size-differs-from-bytes-written:multipart",
+                                                   "text": text, "declared_size": size, "written": len(out)}
+            return True, "payload:full", None
         want = data if cl is None else data[:cl]
         key = None
         if out != want:
